@@ -5,9 +5,12 @@
 //!  A. configuration layering: every list of <= 3 (thorough: additionally every list of 4 over a reduced
 //!     alphabet) YAML documents from a 40-document alphabet (5 `path`s x 8 bodies) x 4 file paths, observed
 //!     through `config::load_from_yaml` + `ConfigSet::select`.
-//!  B. rule folding: every rule list of length <= 3 (thorough <= 4) from a 12-rule alphabet x 12 records, through
-//!     the CSV importer and through the Viseca importer; every rule list of length <= 3 (thorough <= 4) from
-//!     a 9-rule camt alphabet x 7 records through the ISO Camt053 importer. Observed on the PRINTED transaction
+//!  B. rule folding: every rule list of length <= 3 (thorough <= 4) from a 12-rule alphabet x 12 records through
+//!     the CSV importer, from a 15-rule alphabet (the same 12 + 3 with capturing `category` fields) x 12 records
+//!     through the Viseca importer, and from a 15-rule camt alphabet x 7 records through the ISO Camt053 importer.
+//!     The Viseca / Camt053 alphabets contain OR-lists of 2-3 elements whose 2-field AND elements CAPTURE in a
+//!     field that is applied early and FAIL (or succeed) in a later one, followed by elements that match: a failed
+//!     element must contribute nothing. Observed on the PRINTED transaction
 //!     (`load_from_yaml` -> `select` -> `import::import` -> `Txn::to_double_entry` -> `DisplayContext::as_display`,
 //!     i.e. the body of `ImportCmd::run` without the file system).
 //!  C. end to end: every ordered pair of rules split over two layered documents (`bank/`, `bank/acct`), both
@@ -15,7 +18,9 @@
 //!
 //! The reference is NON-DETERMINISTIC where the statement is silent: it returns the SET of acceptable
 //! results (tie order of equal-length paths; whole-override vs. per-key merge of `format`; which of several
-//! matching OR elements supplies the captures). One acceptable result => MUST; several => the observation
+//! matching OR elements supplies the captures; which of two fields of one element capturing the same name wins;
+//! whether the `payee` field of an element sees the payee captured by a sibling field). One acceptable result
+//! => MUST; several => the observation
 //! must still be one of them (else violation), and the case is counted DON'T-CARE.
 
 use std::cell::RefCell;
@@ -35,7 +40,8 @@ pub const DEF: CheckDef = CheckDef {
     assumptions: &[
         "the reference matches patterns with the `regex` crate (search semantics, case-insensitive): regex semantics themselves are trusted, not verified",
         "case-insensitive matching is taken from the property's anchored mechanism (extract.rs regex_matcher); the statement and doc/import.ja.md do not mention it (constant CASE_FOLD_IS_MUST)",
-        "alphabets avoid what the statement leaves open: empty / non-participating capture groups, a rule with both `payee:` and a payee capture, an AND element with two capturing fields or with a `payee` field next to a payee-capturing field (its result would depend on HashMap order)",
+        "alphabets avoid empty / non-participating capture groups and a rule with both `payee:` and a payee capture; AND elements with several capturing fields, or with a `payee` field next to a payee-capturing field, ARE included (Viseca / Camt053; okane applies the fields of an element in the fixed order of RewriteField since commit f3b005d) and are judged with a set-valued reference: an element fails iff some field fails under every reading, a failed element contributes no captures, and where two readings of a MATCHING element differ both are admitted (DON'T-CARE)",
+        "the CSV alphabet has no capture group in `category` (the CSV importer deliberately discards captures of category / secondary_commodity; not judged)",
         "camt053: the payee printed when no rule set one, and the code when the record carries an AcctSvcrRef, are not judged",
     ],
     shards: 64,
@@ -63,6 +69,7 @@ enum F {
     DebtorName,
     AddtlTxInfo,
     AddtlEntryInfo,
+    RmtInfo,
     DomainCode,
     DomainFamily,
     DomainSubFamily,
@@ -77,6 +84,7 @@ impl F {
             F::DebtorName => "debtor_name",
             F::AddtlTxInfo => "additional_transaction_info",
             F::AddtlEntryInfo => "additional_entry_info",
+            F::RmtInfo => "remittance_unstructured_info",
             F::DomainCode => "domain_code",
             F::DomainFamily => "domain_family",
             F::DomainSubFamily => "domain_sub_family",
@@ -90,6 +98,7 @@ impl F {
             F::DebtorName => config::RewriteField::DebtorName,
             F::AddtlTxInfo => config::RewriteField::AdditionalTransactionInfo,
             F::AddtlEntryInfo => config::RewriteField::AdditionalEntryInfo,
+            F::RmtInfo => config::RewriteField::RemittanceUnstructuredInfo,
             F::DomainCode => config::RewriteField::DomainCode,
             F::DomainFamily => config::RewriteField::DomainFamily,
             F::DomainSubFamily => config::RewriteField::DomainSubFamily,
@@ -117,8 +126,10 @@ fn has_group(pat: &str, name: &str) -> bool {
     pat.contains(&format!("(?P<{}>", name))
 }
 
-/// Alphabet invariants that keep the reference unambiguous (see DEF.assumptions).
-fn check_alphabet(rules: &[RuleDef]) {
+/// Alphabet invariants (see DEF.assumptions). `strict`: additionally no element may capture the same name twice,
+/// capture outside the `payee` field, or combine a `payee` field with a payee-capturing sibling (CSV alphabet,
+/// where every case is then a MUST).
+fn check_alphabet(rules: &[&RuleDef], strict: bool) {
     for r in rules {
         assert!(!r.elems.is_empty(), "harness bug: rule {} has no element", r.name);
         assert!(r.or_list || r.elems.len() == 1, "harness bug: rule {} map form with several elements", r.name);
@@ -126,11 +137,12 @@ fn check_alphabet(rules: &[RuleDef]) {
             assert!(!e.is_empty(), "harness bug: rule {} empty element", r.name);
             let payee_caps = e.iter().filter(|(f, p)| !f.is_const() && has_group(p, "payee")).count();
             let code_caps = e.iter().filter(|(f, p)| !f.is_const() && has_group(p, "code")).count();
-            assert!(payee_caps <= 1 && code_caps <= 1, "harness bug: rule {} element captures twice", r.name);
-            let has_payee_field = e.iter().any(|(f, _)| *f == F::Payee);
-            let other_caps_payee = e.iter().any(|(f, p)| *f != F::Payee && !f.is_const() && has_group(p, "payee"));
-            assert!(!(has_payee_field && other_caps_payee), "harness bug: rule {} element is HashMap-order dependent", r.name);
             assert!(!(r.payee.is_some() && payee_caps > 0), "harness bug: rule {} has payee: and a payee capture", r.name);
+            if strict {
+                assert!(payee_caps <= 1 && code_caps <= 1, "harness bug: rule {} element captures twice", r.name);
+                let sibling_caps = e.iter().any(|(f, p)| *f != F::Payee && !f.is_const() && (has_group(p, "payee") || has_group(p, "code")));
+                assert!(!sibling_caps, "harness bug: rule {} captures outside the payee field", r.name);
+            }
             for (i, (f, _)) in e.iter().enumerate() {
                 assert!(e[..i].iter().all(|(g, _)| g != f), "harness bug: rule {} repeats a field", r.name);
             }
@@ -566,7 +578,7 @@ const PC_PAYEES: [&str; 3] = ["CARD 1234 Migros Zurich 88", "coop city", "Salary
 const PC_CATEGORIES: [&str; 2] = ["Food", "Transfer"];
 
 /// Rule alphabet for ISO Camt053.
-const CAMT_RULES: [RuleDef; 9] = [
+const CAMT_RULES: [RuleDef; 15] = [
     RuleDef { name: "txinfo-cap", or_list: false, elems: &[&[(F::AddtlTxInfo, r"^Maestro (?P<code>\d+) (?P<payee>.*)$")]], pending: false, payee: None, account: None },
     RuleDef { name: "creditor-cap", or_list: false, elems: &[&[(F::CreditorName, r"^(?P<payee>.+)$"), (F::DomainFamily, "ICDT")]], pending: false, payee: None, account: None },
     RuleDef { name: "debtor-cap", or_list: false, elems: &[&[(F::DebtorName, r"^(?P<payee>.+)$"), (F::DomainFamily, "RCDT")]], pending: false, payee: None, account: None },
@@ -576,6 +588,30 @@ const CAMT_RULES: [RuleDef; 9] = [
     RuleDef { name: "entryinfo-pending", or_list: false, elems: &[&[(F::AddtlEntryInfo, "fee")]], pending: true, payee: Some("Okane Bank"), account: Some("Expenses:Fee") },
     RuleDef { name: "any-payee-pending", or_list: false, elems: &[&[(F::Payee, ".")]], pending: true, payee: None, account: Some("Expenses:Misc") },
     RuleDef { name: "anchored", or_list: false, elems: &[&[(F::Payee, "^Migros Z")]], pending: false, payee: None, account: Some("Expenses:Migros") },
+    // --- OR-lists whose AND elements capture in a field applied early and may fail in a later one (fields are applied in
+    // the order of RewriteField: domain codes, creditor, debtor, remittance info, entry info, transaction info, payee)
+    // element 1 captures the payee from the debtor, then fails on card payments; element 2 matches them without captures
+    RuleDef { name: "or-failed-payee-cap", or_list: true, elems: &[&[(F::DebtorName, r"^(?P<payee>Taro .+)$"), (F::AddtlTxInfo, "payment order")], &[(F::AddtlTxInfo, "maestro")]], pending: false, payee: None, account: Some("Expenses:Card") },
+    // element 1 captures code and payee from the creditor, fails unless it is a standing order; element 2 = AND without captures
+    RuleDef { name: "or-failed-code-cap", or_list: true, elems: &[&[(F::CreditorName, r"^(?P<code>\w+) (?P<payee>.+)$"), (F::AddtlEntryInfo, "standing")], &[(F::CreditorName, "migros"), (F::DomainFamily, "ICDT")]], pending: true, payee: None, account: Some("Expenses:Shop2") },
+    // element 1 captures the payee and always fails; element 2 is a `payee` matcher that must see the payee of the EARLIER RULES
+    RuleDef { name: "or-failed-then-payee", or_list: true, elems: &[&[(F::DebtorName, r"^(?P<payee>.+)$"), (F::AddtlTxInfo, "no such text")], &[(F::Payee, "migros")]], pending: false, payee: None, account: Some("Expenses:Grocery2") },
+    // three elements: two capturing ones that fail or succeed depending on the record, then a plain one
+    RuleDef { name: "or-three", or_list: true, elems: &[&[(F::CreditorName, r"^(?P<payee>.+)$"), (F::AddtlTxInfo, "refund")], &[(F::DebtorName, r"^(?P<payee>.+)$"), (F::RmtInfo, "invoice")], &[(F::AddtlEntryInfo, "card payment|standing")]], pending: false, payee: None, account: None },
+    // one element, two capturing fields of different names
+    RuleDef { name: "and-two-captures", or_list: false, elems: &[&[(F::CreditorName, r"^(?P<payee>.+)$"), (F::AddtlTxInfo, r"^Maestro (?P<code>\d+) ")]], pending: false, payee: None, account: None },
+    // a `payee` field next to a payee-capturing sibling: whether it sees the sibling's capture is left open by the statement
+    RuleDef { name: "and-cap-then-payee", or_list: false, elems: &[&[(F::CreditorName, r"^(?P<payee>.+)$"), (F::Payee, "migros")]], pending: false, payee: None, account: Some("Expenses:Grocery4") },
+];
+
+/// Viseca only (its `category` matcher captures, the CSV one does not): `category` is applied before `payee`.
+const VISECA_EXTRA: [RuleDef; 3] = [
+    // element 1 captures the payee from the category and fails on the payee; element 2 must see the payee of the earlier rules
+    RuleDef { name: "or-failed-category-cap", or_list: true, elems: &[&[(F::Category, r"^(?P<payee>Food)$"), (F::Payee, "no-such-payee")], &[(F::Payee, "migros")]], pending: false, payee: None, account: Some("Expenses:Grocery3") },
+    // element 1 captures a code from the category and fails; element 2 matches without captures
+    RuleDef { name: "or-failed-category-code", or_list: true, elems: &[&[(F::Category, r"^(?P<code>\w+)$"), (F::Payee, "no-such-payee")], &[(F::Category, "food|transfer")]], pending: false, payee: None, account: None },
+    // a category capture that applies
+    RuleDef { name: "category-cap", or_list: false, elems: &[&[(F::Category, r"^(?P<payee>Trans)fer$")]], pending: false, payee: None, account: None },
 ];
 
 #[derive(Clone, Debug)]
@@ -620,13 +656,13 @@ fn camt_records() -> Vec<Rec> {
     // salary
     for acct_ref in [false, true] {
         let mut f = dom("RCDT", "SALA");
-        f.extend([(F::CreditorName, "Taro Yamada"), (F::DebtorName, "ACME Corp"), (F::AddtlTxInfo, "Salary October"), (F::AddtlEntryInfo, "Credit transfer")]);
+        f.extend([(F::CreditorName, "Taro Yamada"), (F::DebtorName, "ACME Corp"), (F::AddtlTxInfo, "Salary October"), (F::AddtlEntryInfo, "Credit transfer"), (F::RmtInfo, "Invoice 2024-10 salary")]);
         v.push(Rec { payee: None, fields: f, credit: true, acct_ref, no_details: false });
     }
     // transfer to a private person, no additional transaction info
     {
         let mut f = dom("ICDT", "AUTT");
-        f.extend([(F::CreditorName, "Hanako Migros"), (F::DebtorName, "Taro Yamada"), (F::AddtlEntryInfo, "Standing order")]);
+        f.extend([(F::CreditorName, "Hanako Migros"), (F::DebtorName, "Taro Yamada"), (F::AddtlEntryInfo, "Standing order"), (F::RmtInfo, "Rent")]);
         v.push(Rec { payee: None, fields: f, credit: false, acct_ref: false, no_details: false });
     }
     // bank fee: entry without transaction details
@@ -681,6 +717,9 @@ fn source_text(veh: Veh, rec: &Rec) -> String {
                     s.push_str(&format!("<Cdtr><Nm>{}</Nm></Cdtr>", xml_escape(c)));
                 }
                 s.push_str("</RltdPties>");
+                if let Some(i) = rec.field(F::RmtInfo) {
+                    s.push_str(&format!("<RmtInf><Ustrd>{}</Ustrd></RmtInf>", xml_escape(i)));
+                }
                 if let Some(i) = rec.field(F::AddtlTxInfo) {
                     s.push_str(&format!("<AddtlTxInf>{}</AddtlTxInf>", xml_escape(i)));
                 }
@@ -726,36 +765,104 @@ struct Sem {
     threaded: bool,
 }
 
-/// Does the element match, and with which (payee, code) captures?
-fn elem_match(e: Elem, rec: &Rec, cur_payee: Option<&str>, sem: Sem) -> Option<(Option<String>, Option<String>)> {
-    let mut cap_p = None;
-    let mut cap_c = None;
-    for (f, pat) in e.iter() {
+type Caps = (Option<String>, Option<String>);
+
+struct ElemRes {
+    /// every admitted outcome of the element: `None` = does not match, `Some((payee capture, code capture))`
+    outcomes: BTreeSet<Option<Caps>>,
+    /// what fields of the element captured although the element fails under every reading (must never show)
+    dead_captures: Vec<String>,
+}
+
+fn named(caps: &regex::Captures<'_>, name: &str) -> Option<String> {
+    caps.name(name).map(|m| {
+        assert!(!m.as_str().is_empty(), "harness bug: empty {} capture", name);
+        m.as_str().to_string()
+    })
+}
+
+/// Does the element match, and with which (payee, code) captures? An element matches only if ALL its fields do.
+/// Left open by the statement, hence every reading is admitted: which of two fields capturing the same name wins;
+/// whether the `payee` field sees the payee as rewritten by the earlier RULES or also a sibling field's capture.
+fn elem_outcomes(e: Elem, rec: &Rec, cur_payee: Option<&str>, sem: Sem) -> ElemRes {
+    let mut pcaps: Vec<String> = Vec::new();
+    let mut ccaps: Vec<String> = Vec::new();
+    let mut failed = false;
+    // fields other than `payee` depend on the record only
+    for (f, pat) in e.iter().filter(|(f, _)| *f != F::Payee) {
         if f.is_const() {
             if rec.field(*f) != Some(*pat) {
-                return None;
+                failed = true;
             }
             continue;
         }
-        let target = if *f == F::Payee { cur_payee } else { rec.field(*f) }?;
-        let caps = re(pat, sem.case_insensitive).captures(target)?;
-        if let Some(m) = caps.name("payee") {
-            assert!(!m.as_str().is_empty(), "harness bug: empty payee capture");
-            cap_p = Some(m.as_str().to_string());
-        }
-        if let Some(m) = caps.name("code") {
-            assert!(!m.as_str().is_empty(), "harness bug: empty code capture");
-            cap_c = Some(m.as_str().to_string());
+        match rec.field(*f).and_then(|t| re(pat, sem.case_insensitive).captures(t)) {
+            None => failed = true,
+            Some(caps) => {
+                pcaps.extend(named(&caps, "payee"));
+                ccaps.extend(named(&caps, "code"));
+            }
         }
     }
-    Some((cap_p, cap_c))
+    let dead = |p: &Vec<String>, c: &Vec<String>| p.iter().chain(c.iter()).cloned().collect::<Vec<_>>();
+    if failed {
+        return ElemRes { outcomes: [None].into_iter().collect(), dead_captures: dead(&pcaps, &ccaps) };
+    }
+    let winners = |v: &Vec<String>| -> Vec<Option<String>> {
+        if v.is_empty() {
+            vec![None]
+        } else {
+            v.iter().cloned().map(Some).collect()
+        }
+    };
+    let mut outcomes: BTreeSet<Option<Caps>> = BTreeSet::new();
+    match e.iter().find(|(f, _)| *f == F::Payee) {
+        None => {
+            for p in winners(&pcaps) {
+                for c in winners(&ccaps) {
+                    outcomes.insert(Some((p.clone(), c)));
+                }
+            }
+        }
+        Some((_, pat)) => {
+            let mut targets: BTreeSet<Option<String>> = BTreeSet::new();
+            targets.insert(cur_payee.map(str::to_string));
+            targets.extend(pcaps.iter().cloned().map(Some));
+            for t in targets {
+                let own: Option<Caps> = t.as_deref().and_then(|t| re(pat, sem.case_insensitive).captures(t).map(|caps| (named(&caps, "payee"), named(&caps, "code"))));
+                match own {
+                    None => {
+                        outcomes.insert(None);
+                    }
+                    Some((op, oc)) => {
+                        let mut p2 = pcaps.clone();
+                        p2.extend(op);
+                        let mut c2 = ccaps.clone();
+                        c2.extend(oc);
+                        for p in winners(&p2) {
+                            for c in winners(&c2) {
+                                outcomes.insert(Some((p.clone(), c)));
+                            }
+                        }
+                    }
+                }
+            }
+        }
+    }
+    let dead_captures = if outcomes.iter().all(|o| o.is_none()) { dead(&pcaps, &ccaps) } else { Vec::new() };
+    ElemRes { outcomes, dead_captures }
 }
 
-#[derive(Default, Clone, Copy)]
+#[derive(Default, Clone)]
 struct FoldInfo {
     matched_rules: usize,
     account_rules: usize,
-    or_ambiguous: bool,
+    /// several results admitted for some rule (OR elements / fields of one element)
+    ambiguous: bool,
+    /// some MATCHING rule has an element that captured and then failed
+    failed_capturing_element: bool,
+    /// what such elements captured
+    dead_captures: Vec<String>,
 }
 
 /// The documented fold; returns every admissible final state.
@@ -768,32 +875,49 @@ fn fold_ref(rules: &[&RuleDef], rec: &Rec, sem: Sem) -> (BTreeSet<St>, FoldInfo)
         let mut any_match = false;
         for st in &states {
             let cur: Option<&str> = if sem.threaded { st.payee.as_deref().or(rec.payee) } else { rec.payee };
-            // an OR-list matches if any element does; which matching element supplies the captures is left open
-            let mut outcomes: BTreeSet<(Option<String>, Option<String>)> = r.elems.iter().filter_map(|e| elem_match(e, rec, cur, sem)).collect();
-            if OR_FIRST_ELEMENT_WINS {
-                outcomes = r.elems.iter().filter_map(|e| elem_match(e, rec, cur, sem)).take(1).collect();
+            let ers: Vec<ElemRes> = r.elems.iter().map(|e| elem_outcomes(e, rec, cur, sem)).collect();
+            // an OR-list matches if any element does; a failed element contributes nothing; which MATCHING element
+            // supplies the captures is left open (or: the first one, see OR_FIRST_ELEMENT_WINS)
+            let mut results: BTreeSet<Option<Caps>> = BTreeSet::new();
+            if ers.iter().all(|x| x.outcomes.contains(&None)) {
+                results.insert(None);
             }
-            if outcomes.is_empty() {
-                next.insert(st.clone());
-                continue;
+            for (i, er) in ers.iter().enumerate() {
+                if OR_FIRST_ELEMENT_WINS && !ers[..i].iter().all(|x| x.outcomes.contains(&None)) {
+                    break;
+                }
+                for o in er.outcomes.iter().flatten() {
+                    results.insert(Some(o.clone()));
+                }
             }
-            any_match = true;
-            if outcomes.len() > 1 {
-                info.or_ambiguous = true;
+            assert!(!results.is_empty(), "harness bug: rule {} admits no result", r.name);
+            if results.len() > 1 {
+                info.ambiguous = true;
             }
-            for (cp, cc) in outcomes {
+            if results.iter().any(|x| x.is_some()) {
+                any_match = true;
+                for er in &ers {
+                    if !er.dead_captures.is_empty() {
+                        info.failed_capturing_element = true;
+                        info.dead_captures.extend(er.dead_captures.iter().cloned());
+                    }
+                }
+            }
+            for res in results {
                 let mut n = st.clone();
-                // captures set payee and code; an explicit `payee:` sets the payee (never both, see check_alphabet)
-                if let Some(p) = r.payee.map(str::to_string).or(cp) {
-                    n.payee = Some(p);
-                }
-                if let Some(c) = cc {
-                    n.code = Some(c);
-                }
-                if let Some(a) = r.account {
-                    n.account = Some(a.to_string());
-                    if !r.pending {
-                        n.cleared = true;
+                if let Some((cp, cc)) = res {
+                    // captures set payee and code; an explicit `payee:` sets the payee (never both, see check_alphabet)
+                    if let Some(p) = r.payee.map(str::to_string).or(cp) {
+                        n.payee = Some(p);
+                    }
+                    if let Some(c) = cc {
+                        n.code = Some(c);
+                    }
+                    if let Some(a) = r.account {
+                        n.account = Some(a.to_string());
+                        if !r.pending {
+                            n.cleared = true;
+                        }
                     }
                 }
                 next.insert(n);
@@ -874,6 +998,7 @@ struct Judged {
     case_dependent: bool,
     or_ambiguous: bool,
     override_seen: bool,
+    failed_capturing_element: bool,
 }
 
 /// Compare a printed transaction with the reference fold of `rules` over `rec`.
@@ -884,7 +1009,7 @@ fn judge_fold(tag: &str, veh: Veh, rules: &[&RuleDef], rec: &Rec, printed: &Prin
     let (case_sensitive, _) = fold_ref(rules, rec, Sem { case_insensitive: false, ..sem });
     let thread_dependent = unthreaded != accept;
     let case_dependent = case_sensitive != accept;
-    let mk = |outcome: Outcome| Judged { outcome, thread_dependent, case_dependent, or_ambiguous: info.or_ambiguous, override_seen: info.account_rules >= 2 };
+    let mk = |outcome: Outcome| Judged { outcome, thread_dependent, case_dependent, or_ambiguous: info.ambiguous, override_seen: info.account_rules >= 2, failed_capturing_element: info.failed_capturing_element };
 
     // the posting to the configured account, and the counter-posting
     if printed.posts.len() != 2 {
@@ -942,7 +1067,9 @@ fn judge_fold(tag: &str, veh: Veh, rules: &[&RuleDef], rec: &Rec, printed: &Prin
         let (attr, want, got, st) = first.expect("accept set is never empty");
         let shape = match attr {
             "payee" => {
-                if st.payee.is_none() {
+                if info.dead_captures.contains(&printed.payee) {
+                    "captured-by-failed-element"
+                } else if st.payee.is_none() {
                     "want-original"
                 } else if thread_dependent {
                     "want-rewritten/threading"
@@ -951,7 +1078,9 @@ fn judge_fold(tag: &str, veh: Veh, rules: &[&RuleDef], rec: &Rec, printed: &Prin
                 }
             }
             "code" => {
-                if st.code.is_some() && printed.code.is_none() {
+                if printed.code.as_ref().map_or(false, |c| info.dead_captures.contains(c)) {
+                    "captured-by-failed-element"
+                } else if st.code.is_some() && printed.code.is_none() {
                     "capture-dropped"
                 } else if st.code.is_none() {
                     "unexpected"
@@ -999,7 +1128,7 @@ fn judge_fold(tag: &str, veh: Veh, rules: &[&RuleDef], rec: &Rec, printed: &Prin
         if st.cleared { "cleared" } else { "pending" }
     );
     if accept.len() > 1 {
-        return mk(Outcome::dont_care(format!("{}/{}/or-capture-left-open", tag, veh.name())));
+        return mk(Outcome::dont_care(format!("{}/{}/capture-choice-left-open", tag, veh.name())));
     }
     if case_dependent && !CASE_FOLD_IS_MUST {
         return mk(Outcome::dont_care(format!("{}/{}/case-fold-dependent", tag, veh.name())));
@@ -1020,7 +1149,7 @@ fn admitted(rules: &[&RuleDef], rec: &Rec) -> String {
 
 fn fold_case(ctx: &mut Ctx, veh: Veh, rules: &[&RuleDef], rec: &Rec) {
     let path = "stmt/";
-    let mut flags = (false, false, false, false);
+    let mut flags = (false, false, false, false, false);
     let fl = &mut flags;
     ctx.case(
         || format!("[B {}] configuration:\n{}{}source {}:\n{}reference admits: {}", veh.name(), base_config(veh, path), rewrite_yaml(rules), veh.file(), source_text(veh, rec), admitted(rules, rec)),
@@ -1039,7 +1168,7 @@ fn fold_case(ctx: &mut Ctx, veh: Veh, rules: &[&RuleDef], rec: &Rec) {
                 Err(e) => return Outcome::violation(format!("fold/{}/unreadable-output", veh.name()), e),
             };
             let j = judge_fold("fold", veh, rules, rec, &printed, SRC_ACCOUNT);
-            *fl = (j.thread_dependent, j.case_dependent, j.or_ambiguous, j.override_seen);
+            *fl = (j.thread_dependent, j.case_dependent, j.or_ambiguous, j.override_seen, j.failed_capturing_element);
             j.outcome
         },
     );
@@ -1050,10 +1179,13 @@ fn fold_case(ctx: &mut Ctx, veh: Veh, rules: &[&RuleDef], rec: &Rec) {
         ctx.count("fold_cases_depending_on_case_folding", 1);
     }
     if flags.2 {
-        ctx.count("fold_cases_with_several_matching_or_elements_capturing_differently", 1);
+        ctx.count("fold_cases_with_several_admitted_capture_choices", 1);
     }
     if flags.3 {
         ctx.count("fold_cases_with_account_override", 1);
+    }
+    if flags.4 {
+        ctx.count("fold_cases_with_a_failed_capturing_element_in_a_matching_rule", 1);
     }
 }
 
@@ -1110,9 +1242,13 @@ fn e2e_case(ctx: &mut Ctx, dir: &Path, x: &'static RuleDef, y: &'static RuleDef,
 // =============================================================================================
 
 fn run(ctx: &mut Ctx) {
-    check_alphabet(&A_RULES);
-    check_alphabet(&PC_RULES);
-    check_alphabet(&CAMT_RULES);
+    let csv_rules: Vec<&'static RuleDef> = PC_RULES.iter().collect();
+    let viseca_rules: Vec<&'static RuleDef> = PC_RULES.iter().chain(VISECA_EXTRA.iter()).collect();
+    let camt_rules: Vec<&'static RuleDef> = CAMT_RULES.iter().collect();
+    check_alphabet(&A_RULES.iter().collect::<Vec<_>>(), true);
+    check_alphabet(&csv_rules, true);
+    check_alphabet(&viseca_rules, false);
+    check_alphabet(&camt_rules, false);
 
     // ---------------- family A ----------------
     let all_docs: Vec<Doc> = (0..A_PATHS.len()).flat_map(|p| (0..A_BODIES.len()).map(move |b| Doc { path: p, body: b })).collect();
@@ -1153,9 +1289,9 @@ fn run(ctx: &mut Ctx) {
     let pc = pc_records();
     let camt = camt_records();
     let mut b_cases = 0u64;
-    for veh in [Veh::Csv, Veh::Viseca] {
-        for_each_seq(PC_RULES.len(), 0, maxlen, &mut |idx| {
-            let rules: Vec<&RuleDef> = idx.iter().map(|&i| &PC_RULES[i]).collect();
+    for (veh, alphabet) in [(Veh::Csv, &csv_rules), (Veh::Viseca, &viseca_rules)] {
+        for_each_seq(alphabet.len(), 0, maxlen, &mut |idx| {
+            let rules: Vec<&RuleDef> = idx.iter().map(|&i| alphabet[i]).collect();
             for rec in &pc {
                 b_cases += 1;
                 if !ctx.next_is_mine() {
